@@ -144,6 +144,14 @@ CHECKS = {
             "Quiescence not reached in 4 s is inconclusive. An injected drift that is never detected (8-bit checksum collision with a lagging "
             "queue tick, or no later update) is counted and not asserted, as the statement speaks of detected drift. Low case counts (real sockets).",
             "model-free system-level property-based testing (rapid) with fault injection and harness-owned schedule points", "DESIGN.md §5 C09"),
+    "C18": ("exploration",
+            "Property-based exploration of pipes: generated source schemas and toggle histories (bursts from 1..3 goroutines, Multi states, args) x "
+            "binding kind (Bind, BindMany, BindReady, BindErr, BindConnected, BindAny, flat Add/Remove). The pipe's target is a harness am.Api proxy "
+            "that forwards to a real machine but delays forwarded calls by a generated script, so forwarded calls lag behind the source. At joint "
+            "quiescence (both queues idle, every expected forwarded call finished) target.Is == source.Is per piped pair (active sets for BindAny), "
+            "and the piped source is compared with an un-piped twin: identical results and transition chain, never blocked.",
+            "Local targets only (a NetworkMachine target is not generated). Targets never veto, as the statement requires.",
+            "property-based testing (rapid) with a schedule-carrying am.Api proxy and a differential un-piped twin", "DESIGN.md §5 C18"),
 }
 
 NOT_YET = "check not built yet in this session (planned, see DESIGN.md §9)"
